@@ -46,6 +46,7 @@ fn main() {
                 "crashx" => crashx::worker(idx),
                 "faultx" => faultx::worker(idx),
                 "schedx" => schedx::worker(idx),
+                "c10laps" => c10::lap_worker(idx),
                 _ => usage(),
             }
         }
@@ -87,6 +88,7 @@ fn main() {
                 Some("crashx") => crashx::replay(&v),
                 Some("faultx") => faultx::replay(&v),
                 Some("schedx") => schedx::replay(&v),
+                Some("c10laps") => c10::replay_lap(&v),
                 _ => {
                     eprintln!("unknown engine in replay file");
                     2
@@ -129,6 +131,19 @@ fn run_check(id: &str, tier: Tier) -> i32 {
                 "creation of a new file is not a commit and is outside the property".into(),
             ];
             crashx::run(&mut c);
+            c.finish()
+        }
+        "C10" => {
+            let mut c = Check::new(id, tier, "model_checking");
+            c.assumptions = vec![
+                "closure search: the state key leaves out the absolute transaction id, the header slot and every insertion counter (they enter behaviour only through order comparisons / not at all); pending lists and reader ids are expressed relative to the current id; merged pairs across different ids are cross-checked by comparing all one-step successors (coverage.scenarios[].successor_comparisons)".into(),
+                "a workload whose reachable set closes has a bounded page high-water mark for all infinite runs over its alphabet; non-closure under the state cap is reported as exhaustive:false, not as a violation; budget 4 x largest snapshot + 16 pages is only a tripwire".into(),
+                "long laps are specific deterministic histories (2 000 / 20 000 transactions), not samples".into(),
+            ];
+            seqx::explore(&mut c, id, "seqx");
+            let (txs, rows) = c10::run_laps(&mut c);
+            c.cov("lap_transactions", serde_json::json!(txs));
+            c.cov("laps", serde_json::json!(rows));
             c.finish()
         }
         "C04" => {
